@@ -13,6 +13,7 @@ from sklearn.utils._param_validation import Interval, StrOptions
 from sklearn.utils.validation import check_is_fitted
 
 from gemclus.gemini import AVAILABLE_GEMINIS
+from ._constraints import validate_data
 from .gemini._base_loss import _GEMINI
 from .gemini._utils import _str_to_gemini
 
@@ -231,7 +232,7 @@ class DiscriminativeModel(ClusterMixin, BaseEstimator, ABC):
 
         # Check that X has the correct shape
         X = check_array(X)
-        X = self._validate_data(X, accept_sparse=True, dtype=np.float64, ensure_min_samples=self.n_clusters)
+        X = validate_data(self, X, accept_sparse=True, dtype=np.float64, ensure_min_samples=self.n_clusters)
 
         # Fix the random seed
         random_state = check_random_state(self.random_state)
